@@ -42,7 +42,10 @@ ASCII_COMPAT = {'utf-8', 'utf-8-sig', 'latin-1', 'cp1252', 'ascii', 'iso-8859-15
 WIDE_NOBOM = {'utf-16-le', 'utf-16-be', 'utf-32-le', 'utf-32-be'}
 
 TEXTS_Q = ['', 'a', 'é€\U0001d11e', '@charset "E";a', '@charset "E"', "@charset 'E';", 'x@charset "E";',  '@charset "E";aé', '@media x{}', '@charset "E', "@charset 'E';a{}"]
-TEXTS_T = TEXTS_Q + ['@charset "E";é€\U0001d11e{a:"é"}', '@c', '@import "x";', 'a\ufeffb', '@charset "E";\n@charset "x";', 'a{b:c}' * 3]
+TEXTS_M = TEXTS_Q + ['@charset "E";é€\U0001d11e{a:"é"}', '@c', '@import "x";', 'a\ufeffb', '@charset "E";\n@charset "x";', 'a{b:c}' * 3]
+# quick and thorough differed in the text menu only and both ran in seconds: quick now uses the full former menu, thorough a longer one
+TEXTS_T = TEXTS_M + ['@charset "E";' + 'ab' * 12, 'é' * 9, '\n@charset "E";a', ' @charset "E";', '@charset "E";@charset "E";', '/*é*/@charset "E";a', '@charset "E";\r\n€{}', '@CHARSET "E";a', '@charset  "E";a']
+TEXTS_Q = TEXTS_M
 
 
 def bounds(tier):
@@ -53,7 +56,7 @@ def bounds(tier):
         'encodings': ENCODINGS,
         'chunk_schedules': 'all partitions (closure over canonical states), final flag on the last chunk or as a separate empty call',
         'stream_read_sizes': [1, 2, 3, 5, 64, -1],
-        'force': [True] if tier == 'quick' else [True, False],
+        'force': [True, False],
     }
 
 
@@ -187,9 +190,7 @@ def _unicode_tables(res):
 
 def _modes(text, enc, tier):
     """(given encoding | None, force) decode modes that the statement covers for these bytes"""
-    modes = [(enc, True)]
-    if tier != 'quick':
-        modes.append((enc, False))
+    modes = [(enc, True), (enc, False)]
     has_rule = ref.text_charset(text) is not None
     if enc in BOM_ENC or (has_rule and (enc in ASCII_COMPAT or enc in WIDE_NOBOM)) or enc == 'utf-8':
         modes.append((None, True))
@@ -535,7 +536,7 @@ def plan(tier):
         shards.append(('roundtrip', ti))
         for enc in ENCODINGS:
             for given in (enc, None):
-                for force in ([True] if tier == 'quick' else [True, False]):
+                for force in [True, False]:
                     if given is None and not force:
                         continue
                     shards.append(('chunks-dec', [ti, enc, given, force]))
